@@ -159,3 +159,281 @@ def outside_reason(text):
         return None
     walk(json.loads(text, object_pairs_hook=pairs))
     return why[0] if why else None
+
+
+# ------------------------------------------------------------------ an independent reading of RFC 8259: is this body a JSON text?
+# Written from the grammar of RFC 8259 sections 2-7 (not from the json module, not from falcon): iterative (no recursion, so nesting depth
+# is no obstacle), over the str obtained by a strict UTF-8 decoding of the body (section 8.1: JSON text exchanged between systems MUST be UTF-8).
+
+import re as _re
+
+_NUM = _re.compile(r'-?(?:0|[1-9][0-9]*)(?:\.[0-9]+)?(?:[eE][+-]?[0-9]+)?')
+_HEX = set('0123456789abcdefABCDEF')
+_WSCH = ' \t\n\r'
+
+
+def _scan_string(t, i, n, spans):
+    """t[i] is the opening quote; index after the closing quote, or -1 when the literal is not a string of section 7"""
+    j = i + 1
+    while j < n:
+        c = t[j]
+        if c == '"':
+            if spans is not None:
+                spans.append((i, j + 1))
+            return j + 1
+        if c == '\\':
+            e = t[j + 1:j + 2]
+            if e and e in '"\\/bfnrt':
+                j += 2
+            elif e == 'u' and len(t[j + 2:j + 6]) == 4 and all(x in _HEX for x in t[j + 2:j + 6]):
+                j += 6
+            else:
+                return -1
+        elif c < ' ':
+            return -1               # U+0000 .. U+001F MUST be escaped
+        else:
+            j += 1
+    return -1
+
+
+def rfc8259(t, nonfinite=False, spans=None, structurals=None):
+    """True iff the str `t` is a JSON-text (ws value ws).  nonfinite=True additionally admits the three literals NaN, Infinity, -Infinity
+    (the documented extension of Python's json module).  spans / structurals: lists that receive the (start, end) of every string literal /
+    the positions of the structural characters [ ] { } : , (only meaningful when the answer is True)."""
+    n = len(t)
+    i = 0
+    while i < n and t[i] in _WSCH: i += 1
+    stack = []
+    state = 'value'
+    while True:
+        if state == 'value':
+            if i >= n: return False
+            c = t[i]
+            if c == '{' or c == '[':
+                if structurals is not None: structurals.append(i)
+                close = '}' if c == '{' else ']'
+                i += 1
+                while i < n and t[i] in _WSCH: i += 1
+                if i < n and t[i] == close:
+                    if structurals is not None: structurals.append(i)
+                    i += 1; state = 'after'
+                else:
+                    stack.append(c); state = 'key' if c == '{' else 'value'
+            elif c == '"':
+                i = _scan_string(t, i, n, spans)
+                if i < 0: return False
+                state = 'after'
+            elif t.startswith('true', i) or t.startswith('null', i):
+                i += 4; state = 'after'
+            elif t.startswith('false', i):
+                i += 5; state = 'after'
+            else:
+                m = _NUM.match(t, i)
+                if m:
+                    i = m.end()
+                elif nonfinite and t.startswith('NaN', i):
+                    i += 3
+                elif nonfinite and t.startswith('Infinity', i):
+                    i += 8
+                elif nonfinite and t.startswith('-Infinity', i):
+                    i += 9
+                else:
+                    return False
+                state = 'after'
+        elif state == 'key':
+            if i >= n or t[i] != '"': return False
+            i = _scan_string(t, i, n, spans)
+            if i < 0: return False
+            while i < n and t[i] in _WSCH: i += 1
+            if i >= n or t[i] != ':': return False
+            if structurals is not None: structurals.append(i)
+            i += 1
+            while i < n and t[i] in _WSCH: i += 1
+            state = 'value'
+        else:
+            while i < n and t[i] in _WSCH: i += 1
+            if not stack:
+                return i == n
+            if i >= n: return False
+            c = t[i]
+            if structurals is not None: structurals.append(i)
+            if c == ',':
+                i += 1
+                while i < n and t[i] in _WSCH: i += 1
+                state = 'key' if stack[-1] == '{' else 'value'
+            elif (c == '}' and stack[-1] == '{') or (c == ']' and stack[-1] == '['):
+                stack.pop(); i += 1
+            else:
+                return False
+
+
+def json_verdict(body):
+    """'valid' | 'invalid' | 'nonfinite' (JSON only with Python's NaN / Infinity literals) | 'bom' (a byte order mark in front: RFC 8259 8.1
+    lets a parser ignore it or treat it as an error) | 'empty'"""
+    if not body:
+        return 'empty'
+    try:
+        t = body.decode('utf-8')
+    except UnicodeDecodeError:
+        return 'invalid'
+    if t[:1] == '﻿':
+        return 'bom'
+    if rfc8259(t):
+        return 'valid'
+    return 'nonfinite' if rfc8259(t, nonfinite=True) else 'invalid'
+
+
+# ------------------------------------------------------------------ bodies that are NOT JSON, of every kind
+
+INVALID_KINDS = ['control_in_string', 'control_in_string', 'control_in_string', 'control_in_key', 'truncated', 'trailing', 'structural', 'bad_number', 'bad_literal',
+                 'bad_escape', 'quotes', 'bad_whitespace', 'comment', 'bad_utf8', 'other_encoding', 'brackets', 'non_string_key', 'no_value', 'concatenated', 'python_repr']
+_BAD_NUMBERS = ['01', '-', '+1', '1.', '.5', '1e', '1e+', '1E-', '0x10', '1_000', '--1', '1.e3', '-01', '00', '1.5.5', '1e5e5', '-.5', '٣', '１', '1,5', '0b1', '1f', '1L', '- 1', '+0']
+_BAD_LITERALS = ['True', 'False', 'None', 'nul', 'TRUE', 'Null', 'undefined', 'nulll', 'truefalse', 'tru', 'fals', 'nil', 'NULL', 'N', 'Inf', '-Inf', 'nan', 'infinity', '-NaN', '+Infinity']
+_BAD_ESCAPES = ['\\x41', '\\u12', '\\u123g', '\\a', '\\U00000041', '\\ ', "\\'", '\\u+123', '\\u 123', '\\0', '\\v', '\\e', '\\u{41}', '\\N', '\\\n', '\\u-123', '\\u١٢٣٤']
+_BAD_WS = ['\x0b', '\x0c', '\xa0', '\u2028', '\u2029', '\u3000', '\u1680', '\u2003', '\x00', '\x01', '\x1f', '\x7f', '\x85', '\ufeff', '\x1c', '\x08']
+
+
+def _string_units(t, a, b):
+    """positions inside the string literal t[a:b] (quotes included) at which a character can be inserted without splitting an escape sequence"""
+    pos = []
+    j = a + 1
+    while j < b - 1:
+        pos.append(j)
+        if t[j] == '\\':
+            j += 6 if t[j + 1] == 'u' else 2
+        else:
+            j += 1
+    pos.append(b - 1)
+    return pos
+
+
+def gen_invalid(rnd, kind=None, ctrl=None):
+    """(kind, body): a body that is meant not to be a JSON text; derived from a valid text by one well-aimed defect.  The caller keeps it only when
+    json_verdict() says 'invalid'.  ctrl: the control character to use for the control_in_* kinds (default: random in U+0000..U+001F)."""
+    kind = kind or rnd.choice(INVALID_KINDS)
+    doc = gen_doc_nf(rnd)
+    if kind in ('control_in_string', 'control_in_key', 'bad_escape', 'quotes', 'non_string_key') or rnd.random() < 0.4:
+        # make sure there are strings and keys, at some depth
+        inner = {gen_str(rnd, 3) or 'k': doc, 'note': gen_str(rnd, 8) or 'v'}
+        doc = rnd.choice([inner, [inner], {'data': [1, inner]}, [[gen_str(rnd) or 's', inner]]])
+    t = render_text(rnd, doc, dup=False)
+    spans, structs = [], []
+    assert rfc8259(t, spans=spans, structurals=structs), t
+    spans.sort()
+    enc = lambda s: s.encode('utf-8', 'surrogatepass')  # noqa
+    if kind in ('control_in_string', 'control_in_key'):
+        c = chr(rnd.randrange(0x20)) if ctrl is None else ctrl
+        keys = [sp for sp in spans if t[sp[1]:].lstrip(_WSCH)[:1] == ':']
+        vals = [sp for sp in spans if sp not in keys]
+        pool = (keys if kind == 'control_in_key' else vals) or spans
+        a, b = rnd.choice(pool)
+        p = rnd.choice(_string_units(t, a, b))
+        return kind, enc(t[:p] + c + t[p:])
+    if kind == 'truncated':
+        k = rnd.randrange(1, len(t)) if len(t) > 1 else 1
+        return kind, enc(t[:k]) if rnd.random() < 0.8 else enc(t)[:max(1, rnd.randrange(len(enc(t))))]
+    if kind == 'trailing':
+        return kind, enc(t + rnd.choice(['x', ']', '}', ',', ' null', '{}', '\x00', ' ,', '"', ':', ' 1', '\\', ';', ')']))
+    if kind == 'structural':
+        if not structs:
+            return kind, enc(rnd.choice([',', ':', ',' + t, t + ',', ':' + t]))
+        p = rnd.choice(structs); k = rnd.randrange(5)
+        if k == 0: return kind, enc(t[:p] + t[p + 1:])                              # a structural character missing
+        if k == 1: return kind, enc(t[:p] + t[p] + t[p:])                           # ... doubled
+        if k == 2: return kind, enc(t[:p] + rnd.choice(',:;=') + t[p + 1:])          # ... replaced
+        if k == 3 and t[p] in ']}': return kind, enc(t[:p] + ',' + t[p:])            # trailing comma
+        return kind, enc(t[:p + 1] + ',' + t[p + 1:]) if t[p] in '[{,' else enc(t[:p] + ',' + t[p:])   # leading / double comma
+    if kind in ('bad_number', 'bad_literal'):
+        tok = rnd.choice(_BAD_NUMBERS if kind == 'bad_number' else _BAD_LITERALS)
+        k = rnd.randrange(3)
+        if k == 0 or not structs: return kind, enc(tok)
+        if k == 1: return kind, enc('[' + t + ', ' + tok + ']')
+        return kind, enc('{"a": ' + tok + ', "b": ' + t + '}')
+    if kind == 'bad_escape':
+        a, b = rnd.choice(spans)
+        p = rnd.choice(_string_units(t, a, b))
+        esc = rnd.choice(_BAD_ESCAPES)
+        if rnd.random() < 0.1:
+            return kind, enc(t[:b - 1] + '\\' + t[b - 1:])          # a backslash in front of the closing quote: the string does not end
+        return kind, enc(t[:p] + esc + t[p:])
+    if kind == 'quotes':
+        a, b = rnd.choice(spans); k = rnd.randrange(4)
+        if k == 0: return kind, enc(t[:a] + "'" + t[a + 1:b - 1] + "'" + t[b:])       # single quotes
+        if k == 1: return kind, enc(t[:a] + (t[a + 1:b - 1] or 'k') + t[b:])           # no quotes
+        if k == 2: return kind, enc(t[:b - 1] + t[b:])                                # closing quote missing
+        return kind, enc(t[:a] + t[a + 1:])                                           # opening quote missing
+    if kind in ('bad_whitespace', 'comment'):
+        ins = rnd.choice(_BAD_WS) if kind == 'bad_whitespace' else rnd.choice(['// c\n', '/* c */', '# c\n', '<!-- c -->'])
+        places = [0, len(t)] + structs + [p + 1 for p in structs]
+        p = rnd.choice(places)
+        return kind, enc(t[:p] + ins + t[p:])
+    if kind == 'bad_utf8':
+        b = enc(t)
+        if rnd.random() < 0.6 and spans:
+            a, e = rnd.choice(spans); k = len(enc(t[:rnd.choice(_string_units(t, a, e))]))
+        else:
+            k = rnd.randrange(len(b) + 1)
+        return kind, b[:k] + rnd.choice(BAD_UTF8) + b[k:]
+    if kind == 'other_encoding':
+        codec = rnd.choice(['utf-16', 'utf-16-le', 'utf-16-be', 'utf-32', 'utf-32-le', 'latin-1', 'cp1252', 'utf-7', 'cp037'])
+        try:
+            return kind, t.encode(codec)
+        except UnicodeEncodeError:
+            return kind, t.encode('utf-16')
+    if kind == 'brackets':
+        k = rnd.randrange(5)
+        if k == 0: return kind, enc('[' + t + '}')
+        if k == 1: return kind, enc('{"a": ' + t + ']')
+        if k == 2: return kind, enc('[' + t)
+        if k == 3: return kind, enc(t + rnd.choice(']}'))
+        return kind, enc(rnd.choice(['[', '{', ']', '}', '[[]', '{"a":{}', '[{]}', '([])', '(1)']))
+    if kind == 'non_string_key':
+        return kind, enc('{' + rnd.choice(['1', 'null', 'true', '[]', '{}', 'a', '1.5', '']) + ': ' + t + '}')
+    if kind == 'no_value':
+        return kind, enc(rnd.choice([' ', '\n', '\t\r\n ', '\x00', '\x1f', ',', ':', '{"a"}', '{"a":}', '{:1}', '[,]', '{,}', '\x0c', '\\', '/', '-', '.', 'e', '"', "''"]))
+    if kind == 'concatenated':
+        return kind, enc(t + rnd.choice(['', ' ', '\n']) + render_text(rnd, gen_doc_nf(rnd, 3), dup=False))
+    if kind == 'python_repr':
+        return kind, enc(repr(doc))
+    raise ValueError(kind)
+
+
+# ------------------------------------------------------------------ response content types with parameters
+
+CHARSETS = ['utf-8', 'UTF-8', 'utf8', 'UTF8', 'Utf-8', 'ISO-8859-1', 'iso-8859-1', 'latin1', 'latin-1', 'windows-1252', 'cp1252', 'utf-16', 'UTF-16LE', 'utf-16be', 'utf-32',
+            'us-ascii', 'ascii', 'US-ASCII', 'iso-8859-15', 'shift_jis', 'koi8-r', 'x-unknown-charset']
+OTHER_PARAMS = ['version=2', 'v=1', 'profile="https://example.com/p"', 'indent=4', 'boundary=xyz', 'q=0.5', 'Version=2']
+TEXT_SNIPPETS = ['café', 'naïve', 'Ærøskøbing', '5 €', '“quoted”', 'Ελληνικά', 'русский', '日本語', 'עברית', 'emoji \U0001f600', '\U00010000\U0010ffff', 'plain ascii only',
+                 'ÿþ', '\x7f\x80\xa0', 'tab\tnewline\n', 'Ω≈ç√', 'żółć', '…', 'a\xadb', '\ufeffbom', '\U0010ffff']
+
+
+def gen_json_ctype(rnd, base='application/json'):
+    """(content type, class): class is 'plain' | 'charset_utf8' | 'charset_other' | 'other_param'"""
+    k = rnd.random()
+    if k < 0.12:
+        return base, 'plain'
+    if k < 0.22:
+        p = rnd.choice(OTHER_PARAMS)
+        return base + rnd.choice(['; ', ';']) + p, 'other_param'
+    cs = rnd.choice(CHARSETS)
+    val = cs if rnd.random() < 0.8 else '"' + cs + '"'
+    par = rnd.choice(['charset', 'charset', 'charset', 'Charset', 'CHARSET']) + '=' + val
+    parts = [par]
+    if rnd.random() < 0.25:
+        parts.insert(rnd.randrange(2), rnd.choice(OTHER_PARAMS))
+    out = base
+    for p in parts:
+        out += rnd.choice(['; ', '; ', ';', ' ; ']) + p
+    return out, ('charset_utf8' if cs.lower().replace('-', '') == 'utf8' else 'charset_other')
+
+
+def gen_text_doc(rnd):
+    """a document that certainly contains text, mostly non-ASCII (Latin-1 range, cp1252-only, BMP, astral), as value and as key, at some depth"""
+    s = lambda: rnd.choice(TEXT_SNIPPETS) + (rnd.choice(TEXT_SNIPPETS) if rnd.random() < 0.3 else '')  # noqa
+    k = rnd.randrange(6)
+    if k == 0: return s()
+    if k == 1: return [s(), s()]
+    if k == 2: return {'name': s(), 'price': s(), 'n': 1}
+    if k == 3: return {s(): s()}
+    if k == 4: return {'items': [{'title': s()}, [s(), None, 1.5]], s(): True}
+    return [[[{'deep': s()}]], s()]
